@@ -101,8 +101,8 @@ def producer_of(t):
 def coarse(t):
     """coarse, edit-stable class of a term (for site keys)."""
     s = t
-    while s[0] == "cast" or s[0] in ("ref", "deref"):
-        s = s[2] if s[0] == "cast" else s[1]
+    while s[0] == "cast" or s[0] in ("ref", "deref") or (s[0] == "call" and len(s[2]) == 1 and P.is_widening_from(s[1])):
+        s = s[2] if s[0] == "cast" else (s[2][0] if s[0] == "call" else s[1])
     if P.const_int(s) is not None:
         return "const"
     if s[0] == "param":
@@ -130,8 +130,8 @@ def coarse(t):
 def coarse2(t):
     """very coarse operand class for arithmetic sites: const / param / field / call:<name> / elem / expr"""
     s = t
-    while s[0] == "cast" or s[0] in ("ref", "deref"):
-        s = s[2] if s[0] == "cast" else s[1]
+    while s[0] == "cast" or s[0] in ("ref", "deref") or (s[0] == "call" and len(s[2]) == 1 and P.is_widening_from(s[1])):
+        s = s[2] if s[0] == "cast" else (s[2][0] if s[0] == "call" else s[1])
     if P.const_int(s) is not None:
         return "const"
     if s[0] == "param":
@@ -250,9 +250,7 @@ def sites_of(F, fn):
 
 def enum_code_max(F, term):
     """if term is `u8::from(&Enum)` / `u8::from(Enum)` cast to usize: the maximum code, else None."""
-    s = term
-    if s[0] == "cast" and s[1] == "IntToInt":
-        s = s[2]
+    s = P.unwiden(term)
     if s[0] == "call" and s[1].rsplit("::", 1)[-1] in ("from", "into"):
         fn = F.fns.get(s[1])
         if fn is not None and fn.impl and fn.impl.get("self_ty") == "u8":
